@@ -1,5 +1,6 @@
 // C06 — named semaphore: one system-wide counter per name, open/create/owner rules, crash recovery.
 #include "common.h"
+#include <set>
 #include "../sim/kernel.h"
 #include <string.h>
 #include <deque>
@@ -208,9 +209,23 @@ void do_release(int hi) {
   Epoch &e = S->epochs[H.epoch];
   e.inflight++; e.rel_inv++;
   PError *err = nullptr;
+  bool alone0 = e.inflight == 1;                         // nobody else is inside a call on this counter
+  long ops0 = e.acq_ret + e.rel_ret + e.rel_inv;
+  int before = kern::sem_value(e.kobj);
   pboolean r = HX_API("p_semaphore_release", H.name, false, p_semaphore_release(H.h, &err));
+  bool alone = alone0 && e.inflight == 1 && ops0 == e.acq_ret + e.rel_ret + e.rel_inv;
   e.inflight--;
-  if (!r) violate("release_failed", "p_semaphore_release", "release returned FALSE (native %d)", err ? p_error_get_native_code(err) : 0);
+  const int SEM_MAX = 2147483647;
+  if (!r) {
+    // a counter that holds the maximum cannot take another unit: FALSE is the honest answer then, and only then
+    bool full = before == SEM_MAX || kern::sem_value(e.kobj) == SEM_MAX;
+    if (!full) violate("release_failed", "p_semaphore_release", "release returned FALSE (native %d)", err ? p_error_get_native_code(err) : 0);
+    e.rel_inv--;
+    if (err) p_error_free(err);
+    probe("sem.release_at_maximum");
+    return;
+  }
+  if (alone && before == SEM_MAX) violate("release_reported_success_at_maximum", "p_semaphore_release", "release returned TRUE on a counter that already holds the maximum value");
   e.rel_ret++;
   order_ev(H.name, 4, cur()->id);
 }
@@ -225,8 +240,8 @@ void script(int nops) {
     uint32_t r = gen(10);
     if (mine.empty() || r < 2) {
       int name = (int)gen(MAXN);
-      static const int bigs[] = {255, 256, 32767, 65536, 1000000};
-      int v = gen(10) == 0 ? bigs[gen(5)] : (int)gen(4);      // mostly tiny (a wait is reachable), sometimes large (no truncation of the value)
+      static const int bigs[] = {255, 256, 32767, 65536, 1000000, 2147483647};
+      int v = gen(10) == 0 ? bigs[gen(6)] : (int)gen(4);      // mostly tiny (a wait is reachable), sometimes large (no truncation of the value)
       PSemaphoreAccessMode mode = gen(3) == 0 ? P_SEM_ACCESS_CREATE : P_SEM_ACCESS_OPEN;
       if (mine.size() < 4) { if (S->concurrent_lifecycle) do_new_c(name, v, mode); else do_new(name, v, mode); }
     } else {
@@ -291,6 +306,21 @@ void root() {
     if (kern::sem_name_bound(S->key[n].c_str())) violate("owner_free_left_name", "p_semaphore_free", "creator freed its handle but the name still exists");
   }
   if (S->key[0] == S->key[1]) violate("names_collide", "p_semaphore_new", "the distinct names '%s' and '%s' map to one system-wide semaphore", user_names[0], user_names[1]);
+  // name-space scan (1 run in 2000): many distinct names must map to distinct system-wide objects (a key derivation that keeps too
+  // few bits of the name collides somewhere in a few thousand names)
+  if (gen(2000) == 0) {
+    std::set<std::string> seen;
+    int nscan = 500;
+    for (int i = 0; i < nscan; i++) {
+      char nm[48]; snprintf(nm, sizeof nm, "vp-scan-%d%s", i, i % 3 == 0 ? "-x" : "");
+      PSemaphore *h = p_semaphore_new(nm, 1, P_SEM_ACCESS_CREATE, nullptr);
+      if (!h) violate("new_failed", "name_scan", "p_semaphore_new on the fresh name '%s' returned NULL", nm);
+      std::string key = kern::last_sem_name();
+      if (!seen.insert(key).second) violate("names_collide", "p_semaphore_new", "'%s' maps to a system-wide name another of %d scanned names already uses (%s)", nm, i, key.c_str());
+      p_semaphore_free(h);
+    }
+    probe("sem.name_space_scanned");
+  }
   int np = (int)gen_range(1, 3);
   S->nprocs = np;
   bool with_kill = np >= 2 && gen(3) == 0;
